@@ -48,6 +48,14 @@ int main(void){
   uk_note_text("source", st, sn, sizeof(CH)); uk_note_text("base", bt, bn, sizeof(CH));
   if (U(uriParseSingleUriExMm)(&S, st, st + sn, &ep, &mm) != URI_SUCCESS){ uk_assume(0); return 0; }
   if (U(uriParseSingleUriExMm)(&B, bt, bt + bn, &ep, &mm) != URI_SUCCESS){ U(uriFreeUriMembersMm)(&S, &mm); uk_assume(0); return 0; }
+#ifdef CHAIN3
+  /* three-operation histories: the source is itself a produced URI (normalised in place, hence owned with rebuilt segments);
+     the class predicates and the expected result below are then taken from its recomposed text */
+  { int l0 = 0; rc = U(uriNormalizeSyntaxExMm)(&S, URI_NORMALIZE_PATH | URI_NORMALIZE_SCHEME | URI_NORMALIZE_HOST, &mm);
+    if (rc != URI_SUCCESS){ U(uriFreeUriMembersMm)(&S, &mm); U(uriFreeUriMembersMm)(&B, &mm); uk_assume(0); return 0; }
+    chk_reparse_stable(&S);
+    st = recompose(&S, &l0); sn = l0; uk_note_text("source-normalised", st, sn, sizeof(CH)); uk_cover("source-produced"); }
+#endif
   os_split(st, sn, &ss); os_split(bt, bn, &bs);
   root = uk_choice(2, "domainRoot");
   ro_uri(&S); ro_uri(&B);
@@ -138,6 +146,11 @@ int main(void){
 #endif
 #ifdef P_C07
   chk_reparse_stable(&D);
+#ifdef CHAIN3
+  /* third operation: the created reference is resolved again; the result must survive the text round trip as well */
+  rc = U(uriAddBaseUriExMm)(&T, &D, &B, URI_RESOLVE_STRICTLY, &mm);
+  if (rc == URI_SUCCESS){ chk_reparse_stable(&T); uk_cover("third-operation"); U(uriFreeUriMembersMm)(&T, &mm); }
+#endif
 #endif
 #ifdef P_C05
   chk_tostring_contract(&D);
